@@ -33,7 +33,7 @@ RULE = ('one case = one seeded cache content (6-30 tiles on levels 0-3 stored at
         'second, plus foreign objects: a second cache, lock files, stray files) (or, deep variant, tiles around the bundle borders of levels 8/9 of a ten-level pyramid) x one cleanup task (level list / range / open or '
         'zero-ended range / levels beyond the grid, remove_all / remove_before as absolute time, relative age or file mtime / '
         'default, full extent or coverage: bbox in the grid SRS or EPSG:4326, edge-hugging bbox, polygon, two boxes) on one '
-        'backend+layout in a seeded fixed-offset local time zone, readdir order permuted, optionally after another cleanup task of the same run, optionally with every directory older than its tiles (restored backup); non-trivial = the task had to remove at least one tile and keep at '
+        'backend+layout in a seeded fixed-offset local time zone, readdir order permuted, optionally after another cleanup task of the same run, optionally with every directory older than its tiles (restored backup), optionally with removals that take seconds (stalled backend); non-trivial = the task had to remove at least one tile and keep at '
         'least one tile of the same cache; distinct = distinct (backend, contents, task) hash')
 COMPONENTS = {
     'real': ['mapproxy.seed.cleanup (cleanup, simple_cleanup, cache_cleanup, tilewalker_cleanup)', 'mapproxy.util.fs.cleanup_directory',
